@@ -16,6 +16,7 @@ import AutosarVerif.Gen.Versions
 import AutosarVerif.Gen.SpecData
 import AutosarVerif.Model.Regex
 import AutosarVerif.Model.CData
+import AutosarVerif.Model.Lexer
 import AutosarVerif.Gen.RegexStrings
 import AutosarVerif.Gen.DfaData
 import Driver.Proto
@@ -148,6 +149,19 @@ def answer (S : Spec) (ws : List String) : String :=
         | some (w, a, b) => s!"ok {hexOrDash (w.map UInt8.ofNat)} dfa={a} regex={b}"
         | none => "none"
       | _, _ => "none"
+    | none => "bad-op"
+  | ["load", _strict, h] =>
+    -- lexer level: the first tokenizer error of the buffer (kind and line), `ok` if there is none
+    match bytesOfHex h with
+    | some b =>
+      match (Lex.lex b).2.1 with
+      | some (l, e) =>
+        let k := match e with
+          | .incompleteData => "incompleteData" | .invalidElement => "invalidElement"
+          | .invalidProcessingInstruction => "invalidProcessingInstruction" | .invalidXmlHeader => "invalidXmlHeader"
+          | .invalidComment => "invalidComment"
+        s!"lexerr {k}@{l}"
+      | none => "ok"
     | none => "bad-op"
   | ["parse_int", w, h] =>
     match intTyOf w, bytesOfHex h with
